@@ -66,7 +66,7 @@ fn main() {
             }
         }
         "fieldcheck" => {
-            let (_, notes) = msgcheck::Contents::load(util::arg(rest, "--contents").unwrap_or("/verif/data/contents.json"));
+            let (_, notes) = msgcheck::Contents::load(&util::arg(rest, "--contents").map(|s| s.to_string()).unwrap_or_else(util::contents_default));
             for n in &notes {
                 println!("{}", n);
             }
